@@ -286,6 +286,32 @@ fn bytes_chars(s: &[u8]) {
             assert!(t[k] & 0xC0 == 0x80, "char token contains a second non-continuation byte");
             k += 1;
         }
+        // a token of two or more bytes is (a prefix of) a well-formed UTF-8 sequence: the lead
+        // byte announces at least that many bytes and the second byte lies in the range that
+        // lead byte allows (Unicode table 3-7) - so it is one scalar value, or one truncated
+        // sequence that lossy decoding replaces by a single U+FFFD; overlong forms, encoded
+        // surrogates and values past U+10FFFF are never glued into one token
+        if t.len() >= 2 {
+            let (lead, second) = (t[0], t[1]);
+            let want = if lead >= 0xC2 && lead <= 0xDF {
+                2
+            } else if lead >= 0xE0 && lead <= 0xEF {
+                3
+            } else if lead >= 0xF0 && lead <= 0xF4 {
+                4
+            } else {
+                0
+            };
+            assert!(t.len() <= want, "char token longer than its lead byte announces");
+            let (lo, hi) = match lead {
+                0xE0 => (0xA0, 0xBF),
+                0xED => (0x80, 0x9F),
+                0xF0 => (0x90, 0xBF),
+                0xF4 => (0x80, 0x8F),
+                _ => (0x80, 0xBF),
+            };
+            assert!(second >= lo && second <= hi, "char token is an ill-formed sequence (overlong / surrogate / out of range) glued into one token");
+        }
         i += 1;
     }
     std::mem::forget(v);
@@ -306,6 +332,7 @@ bytes_harness!(tok_bytes_words_2, 2, 4, bytes_words);
 bytes_harness!(tok_bytes_words_3, 3, 5, bytes_words);
 bytes_harness!(tok_bytes_chars_2, 2, 4, bytes_chars);
 bytes_harness!(tok_bytes_chars_3, 3, 5, bytes_chars);
+bytes_harness!(tok_bytes_chars_4, 4, 6, bytes_chars);
 bytes_harness!(tok_bytes_misc_3, 3, 5, bytes_misc);
 
 // ---------------------------------------------------------------- str vs [u8] on valid UTF-8
